@@ -158,6 +158,13 @@ fn r4(v: &RenNrenCo2) -> [f64; 4] {
 
 /// the plain report states the numbers of `ep`
 pub fn check_plain(txt: &str, ep: &EnergyPerformance) -> CheckResult {
+    check_plain_with(txt, ep, 0.0)
+}
+
+/// `slack_rel`: extra tolerance relative to the largest magnitude of the line (ren, nren, tot):
+/// when `ep` was read back from JSON its values carry the 3-decimal re-rounding, which for large
+/// f32 values is one ulp of the operands (0.03 at 5e5), not of their possibly small difference
+pub fn check_plain_with(txt: &str, ep: &EnergyPerformance, slack_rel: f64) -> CheckResult {
     let r = parse_report(txt);
     let bal = &ep.balance_m2;
     let one = |key: &str, want: &[f64], unit: f64| -> CheckResult {
@@ -173,8 +180,9 @@ pub fn check_plain(txt: &str, ep: &EnergyPerformance) -> CheckResult {
             None => return Err(Failure::new("plain_missing", format!("no `{}` line in the report", key))),
         };
         ensure!(got.len() >= want.len(), "plain_missing", "line `{}` carries {} numbers, expected {}", key, got.len(), want.len());
+        let mag = want.iter().fold(0.0f64, |m, x| m.max(x.abs()));
         for (i, w) in want.iter().enumerate() {
-            ensure!(near(got[i], *w, unit), "plain_value", "report line `{}` number {} is {} but the result holds {}", key, i, got[i], w);
+            ensure!(near(got[i], *w, unit + slack_rel * mag), "plain_value", "report line `{}` number {} is {} but the result holds {}", key, i, got[i], w);
         }
         Ok(())
     };
@@ -227,8 +235,9 @@ pub fn check_plain(txt: &str, ep: &EnergyPerformance) -> CheckResult {
         ensure!(gk == wk, "plain_list_keys", "table `{}` ({}) lists {:?} but the result's keys, sorted, are {:?}", hdr, name, gk, wk);
         for (g, w) in got.iter().zip(want.iter()) {
             ensure!(g.1.len() >= w.1.len(), "plain_value", "table `{}` entry {} carries {} numbers", hdr, g.0, g.1.len());
+            let mag = w.1.iter().fold(0.0f64, |m, x| m.max(x.abs()));
             for i in 0..w.1.len() {
-                ensure!(near(g.1[i], w.1[i], 0.01), "plain_value", "table `{}` entry {} number {} is {} but the result holds {}", hdr, g.0, i, g.1[i], w.1[i]);
+                ensure!(near(g.1[i], w.1[i], 0.01 + slack_rel * mag), "plain_value", "table `{}` entry {} number {} is {} but the result holds {}", hdr, g.0, i, g.1[i], w.1[i]);
             }
         }
     }
@@ -261,8 +270,9 @@ pub fn check_xml(xml: &str, ep: &EnergyPerformance) -> CheckResult {
     let b = ep.balance_m2.we.b;
     let tot = epm2.child("tot").and_then(|n| n.text.trim().parse::<f64>().ok()).ok_or_else(|| Failure::new("xml_value", "no numeric <tot>"))?;
     let nren = epm2.child("nren").and_then(|n| n.text.trim().parse::<f64>().ok()).ok_or_else(|| Failure::new("xml_value", "no numeric <nren>"))?;
-    ensure!(near(tot, (b.ren + b.nren) as f64, 0.1), "xml_value", "<Epm2><tot> = {} but C_ep,tot = {}", tot, b.ren + b.nren);
-    ensure!(near(nren, b.nren as f64, 0.1), "xml_value", "<Epm2><nren> = {} but C_ep,nren = {}", nren, b.nren);
+    let mag = (b.ren.abs().max(b.nren.abs())) as f64;
+    ensure!(near(tot, (b.ren + b.nren) as f64, 0.1 + 8.0 * crate::tol::EPS32 * mag), "xml_value", "<Epm2><tot> = {} but C_ep,tot = {}", tot, b.ren + b.nren);
+    ensure!(near(nren, b.nren as f64, 0.1 + 8.0 * crate::tol::EPS32 * mag), "xml_value", "<Epm2><nren> = {} but C_ep,nren = {}", nren, b.nren);
     // components, in order
     let comps = root.child("Componentes").ok_or_else(|| Failure::new("xml_value", "no <Componentes>"))?;
     let elems: Vec<&xmlcheck::Node> = comps.children.iter().filter(|c| matches!(c.name.as_str(), "Consumo" | "Produccion" | "EAux" | "Salida")).collect();
@@ -356,6 +366,22 @@ pub fn check_json(ep: &EnergyPerformance, pretty: bool) -> Result<EnergyPerforma
             }
         }
         ensure!(strip_numbers(&v1) == strip_numbers(&v2), "json_round_trip", "reading the JSON back and writing it again changes a non-numeric part of the document");
+    }
+    // the document states the numbers of the result: every numeric field read back from the JSON
+    // equals the computed one, up to the 3-decimal rounding of the weighted-energy triples
+    let (fe, fb) = (crate::flat::flat(ep), crate::flat::flat(&back));
+    ensure!(fe.len() == fb.len(), "json_states_result", "the JSON document holds {} numeric fields of the result, the result has {}", fb.len(), fe.len());
+    for (k, e) in &fe {
+        let b = match fb.get(k) {
+            Some(b) => b,
+            None => fail!("json_states_result", "field `{}` of the result is not in the JSON document", k),
+        };
+        ensure!(b.vals.len() == e.vals.len(), "json_states_result", "field `{}` has another length in the JSON document", k);
+        for i in 0..e.vals.len() {
+            let (x, y) = (e.vals[i], b.vals[i]);
+            let t = if e.kind == crate::flat::EK::Weighted { 0.00051 + 4.0 * crate::tol::EPS32 * x.abs() } else { 0.0 };
+            ensure!((x - y).abs() <= t || (x.is_nan() && y.is_nan()), "json_states_result", "the result holds `{}`[{}] = {} but the JSON document says {}", k, i, x, y);
+        }
     }
     ensure!(back.k_exp == ep.k_exp && back.arearef == ep.arearef, "json_round_trip", "k_exp / arearef change through JSON");
     ensure!(format!("{:?}", back.components.data) == format!("{:?}", ep.components.data), "json_round_trip", "components change through JSON");
@@ -513,7 +539,7 @@ pub fn check_cli(e: &BFCase, _ctx: &mut Ctx) -> CheckResult {
         let txt = run.file("out.txt").ok_or_else(|| Failure::new("cli_files", "out.txt was not written"))?;
         let epj: EnergyPerformance = serde_json::from_str(&js).map_err(|x| Failure::new("json_read_back", format!("the JSON file cannot be read back into a result: {}", x)))?;
         check_xml(&xml, &epj)?;
-        check_plain(&txt, &epj)?;
+        check_plain_with(&txt, &epj, 8.0 * crate::tol::EPS32)?;
         check_json(&epj, true)?;
         ensure!(run.stdout.trim_end().ends_with(txt.trim_end()), "txt_equals_stdout", "the --txt file is not the report printed on stdout");
         // the files describe the evaluation of the inputs given: compare with an in-process run
